@@ -7,3 +7,5 @@ def rules(ctx):
     S.c14_rules(ctx)
     S.c20_r4_page_addresses(ctx)
     S.c06_r4_rebuild(ctx)
+    S.c11_rules(ctx)
+    S.c02_r5_free_leaves_caches(ctx)
